@@ -7,7 +7,7 @@ RULE = ("random request histories on tree-git and bare-git collections; after ev
         "ancestor of the new one, every new commit has one parent and alters the tree, exactly one new commit for a successful changing member write and none for "
         "refused / no-op / read requests or for untouched collections, `git ls-tree HEAD` = served members with blob id = sha1('blob n\\0'+served bytes), `git status "
         "--porcelain` clean for tree stores (nested collection directories excepted), `git fsck --strict` clean; distinct = distinct (backend, head commit) states")
-WEIGHTS = {"put_same": 6, "put_reser": 4, "put_change": 8, "put_revert": 4, "put_new": 9, "delete": 6, "proppatch": 3, "restart": 0.5, "put_invalid": 3, "read": 4,
+WEIGHTS = {"put_same": 6, "put_reser": 4, "put_change": 8, "put_revert": 4, "put_new": 9, "delete": 6, "proppatch": 3, "restart": 1.5, "put_invalid": 3, "read": 4,
            "put_cond": 3, "delete_missing": 2, "put_uidconflict": 2, "locked_writes": 2.5, "put_reserved": 2.0, "control_dir": 3.0, "delete_col": 2.5, "mkcol_new": 2.5, "put_type_confusion": 2.0, "proppatch": 9, "git_branch_rename": 1.5}
 MON = [monitors.C09Monitor]
 
